@@ -407,7 +407,14 @@ def r6(R, repo):
   subs = [n for n in astu.body_walk(cl.node) if isinstance(n, ast.Subscript) and isinstance(n.value, ast.Call) and isinstance(n.value.func, ast.Call) and astu.call_name(n.value.func) == 'init']
   key = key_of(cl, 'core.lazy_init returns the variables of init')
   if len(subs) == 1:
-    R.check(astu.is_const(subs[0].slice, 1), key, cl, 'core.lazy_init must return element [1] (the variables) of init(fn, mutable, flags), not `%s`' % astu.short(subs[0]), evidence=True)
+    idx = subs[0].slice
+    if isinstance(idx, ast.Name):
+      d_ = types.single_def(cl.node, idx.id)
+      idx = d_ if d_ is not None else idx
+    if isinstance(idx, ast.Constant):
+      R.check(astu.is_const(idx, 1), key, cl, 'core.lazy_init must return element [1] (the variables) of init(fn, mutable, flags), not `%s`' % astu.short(subs[0]), evidence=True)
+    else:
+      R.unsure(key, cl, 'index `%s` of the init result not resolved' % astu.short(subs[0].slice))
     evid.judge_forward(R, repo, cl, subs[0].value.func, ['fn', 'mutable', 'flags'], key, 'core.lazy_init must run init with the same fn / mutable / flags', pos={'fn': 0, 'mutable': 1, 'flags': 2})
   else:
     R.unsure(key, cl, 'init(fn, mutable, flags)(…)[1] not found')
